@@ -21,6 +21,11 @@ func queryEvent(
 	fs []*mocrelay.ReqFilter,
 	maxLimit uint,
 ) (events []*mocrelay.Event, err error) {
+	if len(fs) == 0 {
+		// no filter selects nothing (an empty "or" would drop the where clause)
+		return nil, nil
+	}
+
 	q, param, err := buildEventQuery(fs, seed, maxLimit)
 	if err != nil {
 		return nil, fmt.Errorf("failed to build query: %w", err)
